@@ -14,6 +14,8 @@ package api
 // unauthorized callback of the JWT gate (api.WithUnauthorizedCallback: none / writes nothing /
 // sets a header only / writes 401 itself) and, for the signature gate, the key layout of the
 // server (one or two signature-protected route groups, built from the `conf` of the case).
+// Route groups that carry BOTH gates (spec/AuthBoth.tla, the composition of the two specifications)
+// are driven with a token class and a signed/altered request class at once: runBothCase.
 
 import (
 	"crypto/hmac"
@@ -544,6 +546,16 @@ type c04SigServer struct {
 	srv  *Server
 	ran  atomic.Int32
 	wire *httptest.Server // the bound router behind a real loopback listener (started on first use)
+
+	mu      sync.Mutex
+	seen    map[string]any // claims the handler saw in the request context at its last run
+	cbCalls atomic.Int64   // calls of the server's unauthorized callback (routes that also carry the JWT gate)
+}
+
+func (s *c04SigServer) lastSeen() map[string]any {
+	s.mu.Lock()
+	defer s.mu.Unlock()
+	return s.seen
 }
 
 func (s *c04SigServer) close() {
@@ -555,21 +567,41 @@ func (s *c04SigServer) close() {
 // newC04SigServer builds one server with the signature-protected route groups of the case's
 // `conf` (route group -> fingerprint name -> RSA key name): one AddRoutes(..., WithSignature(...))
 // per group, each with exactly its own PrivateKeys; group g serves /c04/<g>/a and /c04/<g>/b.
-func newC04SigServer(keys *c04Keys, kind string, conf map[string]any) (*c04SigServer, error) {
-	srv, err := c04Server(kind)
+// gates (spec/AuthBoth.tla) are further route options every group carries besides the signature gate -
+// the JWT gate of the case's configuration -, mkOpts builds the server options (unauthorized callback).
+func newC04SigServer(keys *c04Keys, kind string, conf map[string]any, mkOpts func(*c04SigServer) ([]Option, error), gates ...RouteOption) (*c04SigServer, error) {
+	s := &c04SigServer{}
+	var srvOpts []Option
+	if mkOpts != nil {
+		var err error
+		if srvOpts, err = mkOpts(s); err != nil {
+			return nil, err
+		}
+	}
+	srv, err := c04Server(kind, srvOpts...)
 	if err != nil {
 		return nil, err
 	}
 	if len(conf) == 0 {
 		return nil, fmt.Errorf("the case names no route group")
 	}
-	s := &c04SigServer{srv: srv}
+	s.srv = srv
+	claimKeys := append([]string{"uid", "role"}, c04Registered...)
 	for _, g := range sortedKeys(conf) {
 		var routes []Route
 		for _, m := range []string{http.MethodGet, http.MethodPost, http.MethodPut, http.MethodDelete} {
 			for _, p := range []string{"/c04/" + g + "/a", "/c04/" + g + "/b"} {
 				routes = append(routes, Route{Method: m, Path: p, Handler: func(w http.ResponseWriter, r *http.Request) {
 					s.ran.Add(1)
+					seen := map[string]any{}
+					for _, k := range claimKeys {
+						if val := r.Context().Value(k); val != nil {
+							seen[k] = val
+						}
+					}
+					s.mu.Lock()
+					s.seen = seen
+					s.mu.Unlock()
 					w.WriteHeader(http.StatusOK)
 				}})
 			}
@@ -586,7 +618,8 @@ func newC04SigServer(keys *c04Keys, kind string, conf map[string]any) (*c04SigSe
 		if len(pks) == 0 {
 			return nil, fmt.Errorf("group %s has no key", g)
 		}
-		srv.AddRoutes(routes, WithSignature(SignatureConfig{Strict: true, Expire: c04Tol * time.Second, PrivateKeys: pks}))
+		sigOpt := WithSignature(SignatureConfig{Strict: true, Expire: c04Tol * time.Second, PrivateKeys: pks})
+		srv.AddRoutes(routes, append([]RouteOption{sigOpt}, gates...)...)
 	}
 	if err := srv.ng.bindRoutes(srv.router); err != nil {
 		return nil, err
@@ -692,11 +725,32 @@ func runSigCase(c kit.Case, keys *c04Keys, servers map[string]*c04SigServer) (v 
 	s := servers[skey]
 	if s == nil {
 		var err error
-		if s, err = newC04SigServer(keys, server, conf); err != nil {
+		if s, err = newC04SigServer(keys, server, conf, nil); err != nil {
 			return c04Infra(c, err.Error())
 		}
 		servers[skey] = s
 	}
+	res, msg := c04SigExchange(c, st, keys, s, nil)
+	if msg != "" {
+		return c04Infra(c, msg)
+	}
+	return c04JudgeSig(st, keys, res, v, conf, layout, group, server)
+}
+
+// c04SigResult is what one signed (and altered) request came back with.
+type c04SigResult struct {
+	code, ran, blocks int
+	encFor, slen      string
+	tamList           []string
+}
+
+// c04SigExchange plays the honest client and the attacker of the case's `req` (spec/AuthSig.tla) against
+// server s: signs, alters, sends, and repeats the whole exchange when the wall-clock second changed
+// meanwhile.  auth (may be nil) supplies an Authorization header value for every attempt ("" = none).
+// A non-empty msg is a harness problem.
+func c04SigExchange(c kit.Case, st kit.M, keys *c04Keys, s *c04SigServer, auth func() (string, error)) (res c04SigResult, msg string) {
+	rq := st["req"].(map[string]any)
+	group := kit.Str(rq["group"])
 	tam := map[string]bool{}
 	var tamList []string
 	for _, t := range kit.List(rq["tamper"]) {
@@ -712,7 +766,7 @@ func runSigCase(c kit.Case, keys *c04Keys, servers map[string]*c04SigServer) (v 
 	encFor := "KA"
 	for attempt := 0; ; attempt++ {
 		if attempt == 8 {
-			return c04Infra(c, "the clock's second changed during 8 consecutive attempts")
+			return res, "the clock's second changed during 8 consecutive attempts"
 		}
 		t0 := time.Now().Unix()
 		var ts string
@@ -760,7 +814,7 @@ func runSigCase(c kit.Case, keys *c04Keys, servers map[string]*c04SigServer) (v 
 		case "minint":
 			ts = strconv.FormatInt(math.MinInt64, 10)
 		default:
-			return c04Infra(c, "unknown ts class "+off)
+			return res, "unknown ts class "+off
 		}
 		method, path, query := kit.Str(rq["method"]), "/c04/"+group+"/a", "k=1&z=%20q"
 		body := ""
@@ -779,7 +833,7 @@ func runSigCase(c kit.Case, keys *c04Keys, servers map[string]*c04SigServer) (v 
 			fp = c04FpWire["fx"]
 		case "missing":
 		default:
-			return c04Infra(c, "unknown fp class")
+			return res, "unknown fp class"
 		}
 		tsInSecret := ts
 		if tam["ts"] {
@@ -802,7 +856,7 @@ func runSigCase(c kit.Case, keys *c04Keys, servers map[string]*c04SigServer) (v 
 		// as long as the case says, relative to the block payload of the key it is encrypted for
 		hmacKey, want, err := c04HmacKey(slen, pub.Size(), tsInSecret, int64(kit.EnvInt("VERIF_SEED", 1))*1000003+int64(c.Index))
 		if err != nil {
-			return c04Infra(c, err.Error())
+			return res, err.Error()
 		}
 		sig := c04Sign(hmacKey, ts, method, path, query, body)
 		var secret string
@@ -814,13 +868,13 @@ func runSigCase(c kit.Case, keys *c04Keys, servers map[string]*c04SigServer) (v 
 		case "garbled":
 			secret = "@@not-base64@@"
 		default:
-			return c04Infra(c, "unknown secret class")
+			return res, "unknown secret class"
 		}
 		if err != nil {
-			return c04Infra(c, err.Error())
+			return res, err.Error()
 		}
 		if wantBlocks := kit.Num(st["blocks"]); wantBlocks != 0 && blocks != 0 && blocks != wantBlocks {
-			return c04Infra(c, fmt.Sprintf("the secret of length class %s has %d RSA blocks, the specification says %d", slen, blocks, wantBlocks))
+			return res, fmt.Sprintf("the secret of length class %s has %d RSA blocks, the specification says %d", slen, blocks, wantBlocks)
 		}
 		if tam["method"] {
 			method = map[string]string{"GET": "DELETE", "DELETE": "GET", "POST": "PUT", "PUT": "POST"}[method]
@@ -845,6 +899,12 @@ func runSigCase(c kit.Case, keys *c04Keys, servers map[string]*c04SigServer) (v 
 		if kit.Str(rq["fp"]) != "missing" {
 			hdr = strings.Join([]string{"fingerprint=" + fp, "secret=" + secret, "signature=" + sig}, "; ")
 		}
+		authHdr := ""
+		if auth != nil {
+			if authHdr, err = auth(); err != nil {
+				return res, err.Error()
+			}
+		}
 		s.ran.Store(0)
 		switch via := kit.Str(rq["via"]); via {
 		case "sized", "unknown":
@@ -856,6 +916,9 @@ func runSigCase(c kit.Case, keys *c04Keys, servers map[string]*c04SigServer) (v 
 			}
 			if hdr != "" {
 				req.Header.Set("X-Content-Security", hdr)
+			}
+			if authHdr != "" {
+				req.Header.Set("Authorization", authHdr)
 			}
 			rec := httptest.NewRecorder()
 			s.srv.router.ServeHTTP(rec, req)
@@ -870,26 +933,37 @@ func runSigCase(c kit.Case, keys *c04Keys, servers map[string]*c04SigServer) (v 
 			}
 			req, err := http.NewRequest(method, s.wire.URL+path+"?"+query, rdr)
 			if err != nil {
-				return c04Infra(c, err.Error())
+				return res, err.Error()
 			}
 			if hdr != "" {
 				req.Header.Set("X-Content-Security", hdr)
 			}
+			if authHdr != "" {
+				req.Header.Set("Authorization", authHdr)
+			}
 			resp, err := s.wire.Client().Do(req)
 			if err != nil {
-				return c04Infra(c, "wire request: "+err.Error())
+				return res, "wire request: "+err.Error()
 			}
 			io.Copy(io.Discard, resp.Body)
 			resp.Body.Close()
 			code = resp.StatusCode
 		default:
-			return c04Infra(c, "unknown delivery "+via)
+			return res, "unknown delivery "+via
 		}
 		ran = int(s.ran.Load())
 		if time.Now().Unix() == t0 {
 			break // the server judged the timestamp within the same second the driver computed it for
 		}
 	}
+	res = c04SigResult{code: code, ran: ran, blocks: blocks, encFor: encFor, slen: slen, tamList: tamList}
+	return res, ""
+}
+
+// c04JudgeSig compares the outcome of a request to a signature-only route with the specification.
+func c04JudgeSig(st kit.M, keys *c04Keys, res c04SigResult, v kit.Verdict, conf map[string]any, layout, group, server string) kit.Verdict {
+	rq := st["req"].(map[string]any)
+	code, ran, blocks, encFor, tamList, slen := res.code, res.ran, res.blocks, res.encFor, res.tamList, res.slen
 	v.Steps++
 	passed := ran == 1 && code == http.StatusOK
 	denied := ran == 0 && code == http.StatusForbidden
@@ -952,6 +1026,136 @@ func runSigCase(c kit.Case, keys *c04Keys, servers map[string]*c04SigServer) (v 
 	return v
 }
 
+// ---------------------------------------------------------------- both gates on one route
+
+func c04JwtOption(cfg string) (RouteOption, error) {
+	switch cfg {
+	case "single":
+		return WithJwt(c04Secrets["cur"]), nil
+	case "transition":
+		return WithJwtTransition(c04Secrets["cur"], c04Secrets["prev"]), nil
+	case "same":
+		return WithJwtTransition(c04Secrets["cur"], c04Secrets["cur"]), nil
+	}
+	return nil, fmt.Errorf("unknown cfg %q", cfg)
+}
+
+// runBothCase drives one request of spec/AuthBoth.tla: the route group carries the JWT gate of the
+// case's configuration AND the strict signature gate (api.WithJwt/WithJwtTransition + api.WithSignature
+// on the same AddRoutes), the request carries a token of the case's class and a signed-then-altered
+// X-Content-Security header of the case's class.  The outcome - handler ran with 200 / 401 / 403 - must
+// be one the specification allows (`expect`, composed of the verdicts of AuthJwt and AuthSig).
+func runBothCase(c kit.Case, keys *c04Keys, servers map[string]*c04SigServer) (v kit.Verdict) {
+	v = kit.Verdict{Case: c.Index, OK: true}
+	st := c.Steps[0]
+	rq, _ := st["req"].(map[string]any)
+	tok, _ := st["tok"].(map[string]any)
+	if rq == nil || tok == nil {
+		return c04Infra(c, "case without req/tok: "+kit.Canon(st))
+	}
+	cfg, cb, server := kit.Str(st["cfg"]), kit.Str(st["cb"]), kit.Str(rq["server"])
+	group := kit.Str(rq["group"])
+	conf, _ := st["conf"].(map[string]any)
+	if _, ok := conf[group]; !ok {
+		return c04Infra(c, fmt.Sprintf("the case's conf %v has no route group %q", st["conf"], group))
+	}
+	// one server per construction, JWT configuration, callback kind and key configuration (the statement lets
+	// no verdict depend on earlier requests, so the route's parser may have served other cases before)
+	skey := "both/" + server + "/" + cfg + "/" + cb + "/" + kit.Canon(conf)
+	s := servers[skey]
+	if s == nil {
+		jwtOpt, err := c04JwtOption(cfg)
+		if err != nil {
+			return c04Infra(c, err.Error())
+		}
+		s, err = newC04SigServer(keys, server, conf, func(s *c04SigServer) ([]Option, error) {
+			return c04Callback(cb, &s.cbCalls)
+		}, jwtOpt)
+		if err != nil {
+			return c04Infra(c, err.Error())
+		}
+		servers[skey] = s
+	}
+	s.cbCalls.Store(0)
+	res, msg := c04SigExchange(c, st, keys, s, func() (string, error) {
+		s.cbCalls.Store(0)
+		return mintToken(tok, cfg, 42)
+	})
+	if msg != "" {
+		return c04Infra(c, msg)
+	}
+	v.Steps++
+	outcome := fmt.Sprintf("status-%d-handler-ran-%d-times", res.code, res.ran)
+	switch {
+	case res.ran == 1 && res.code == http.StatusOK:
+		outcome = "run"
+	case res.ran == 0 && res.code == http.StatusUnauthorized:
+		outcome = "401"
+	case res.ran == 0 && res.code == http.StatusForbidden:
+		outcome = "403"
+	}
+	allowed := false
+	var want []string
+	for _, e := range kit.List(st["expect"]) {
+		want = append(want, kit.Str(e))
+		allowed = allowed || kit.Str(e) == outcome
+	}
+	sort.Strings(want)
+	if len(want) == 0 {
+		return c04Infra(c, "the case allows no outcome: "+kit.Canon(st))
+	}
+	jv, sv := kit.Str(st["jwt"]), kit.Str(st["sig"])
+	fail := func(what, msg string) kit.Verdict {
+		v.OK = false
+		v.Key = "C04:both:" + what
+		if cb != "none" && cb != "" {
+			v.Key += ":callback-" + cb
+		}
+		if server != "default" && server != "" {
+			v.Key += ":server-" + server
+		}
+		v.Msg = fmt.Sprintf("route with the JWT gate (cfg=%s, unauthorized-callback=%s, server=%s) and the strict signature gate; token %s (JWT gate: %s), signed request %s (signature gate: %s): %s (handler ran %d times, status %d, unauthorized callback called %d times); specification: one of %v",
+			cfg, cb, server, tokClass(tok), jv, kit.Canon(rq), sv, msg, res.ran, res.code, s.cbCalls.Load(), want)
+		return v
+	}
+	if !allowed {
+		tokWord := map[string]string{"admit": "token-valid", "deny": "token-invalid", "either": "token-without-time-claims"}[jv]
+		sigWord := map[string]string{"pass": "signature-valid", "deny": "signature-invalid"}[sv]
+		got := map[string]string{"run": "handler-ran", "401": "answered-401", "403": "answered-403"}[outcome]
+		if got == "" {
+			got = "neither-run-nor-401-nor-403"
+		}
+		return fail(tokWord+"+"+sigWord+":"+got, "outcome "+outcome)
+	}
+	c04Count("both."+jv+"."+sv+"."+outcome, 1)
+	if outcome == "401" && s.cbCalls.Load() > 0 {
+		c04Count("both.denied-callback-called.cb-"+cb, 1)
+	}
+	if outcome == "run" {
+		seen := s.lastSeen()
+		vis := map[string]bool{}
+		for _, k := range kit.List(st["visible"]) {
+			name := kit.Str(k)
+			vis[name] = true
+			wantVal := map[string]string{"uid": "42", "role": "admin"}[name]
+			if got := fmt.Sprint(seen[name]); seen[name] == nil || got != wantVal {
+				return fail("claim-missing", fmt.Sprintf("claim %q in context = %v, specification %q", name, seen[name], wantVal))
+			}
+		}
+		for _, k := range kit.List(st["hidden"]) {
+			if val, ok := seen[kit.Str(k)]; ok {
+				return fail("registered-claim-visible", fmt.Sprintf("registered claim %q visible in context (%v)", kit.Str(k), val))
+			}
+		}
+		for k := range seen {
+			if !vis[k] {
+				return fail("extra-claim", fmt.Sprintf("context shows %q which the token does not carry", k))
+			}
+		}
+	}
+	return v
+}
+
 // ---------------------------------------------------------------- entry point
 
 func TestVerifC04Api(t *testing.T) {
@@ -984,7 +1188,7 @@ func TestVerifC04Api(t *testing.T) {
 		switch kit.Str(c.Steps[0]["op"]) {
 		case "config":
 			rep.Put(runJwtCase(c, clock))
-		case "sig":
+		case "sig", "both":
 			if keys == nil {
 				dir, err := os.MkdirTemp("", "verif-c04-")
 				if err != nil {
@@ -995,7 +1199,11 @@ func TestVerifC04Api(t *testing.T) {
 					t.Fatal(err)
 				}
 			}
-			rep.Put(runSigCase(c, keys, sigServers))
+			if kit.Str(c.Steps[0]["op"]) == "both" {
+				rep.Put(runBothCase(c, keys, sigServers))
+			} else {
+				rep.Put(runSigCase(c, keys, sigServers))
+			}
 		default:
 			rep.Put(c04Infra(c, "unknown case kind "+kit.Canon(c.Steps[0])))
 		}
